@@ -905,9 +905,16 @@ void Validator::ValidatorImpl::handleErrorsFromImports(size_t initialErrorCount,
                         os << "'" << name << "' is not valid because:" << std::endl;
                     }
                     size_t startMarker = description.find(dataBoundaryMarker, pos);
-                    size_t endMarker = description.find(dataBoundaryMarker, startMarker + 1);
+                    size_t endMarker = (startMarker == std::string::npos) ? std::string::npos : description.find(dataBoundaryMarker, startMarker + 1);
+                    if (endMarker == std::string::npos) {
+                        // The marker came from user text (a name, for instance), not from this function.
+                        break;
+                    }
                     std::string importInfo = description.substr(startMarker + 1, endMarker - startMarker - 1);
                     auto ss = split(importInfo);
+                    if (ss.size() < 3) {
+                        break;
+                    }
                     os << "  -> " << type << " '" << ss[0] << "' importing '" << ss[1] << "' from '" << ss[2] << "'";
                     originalDescriptionStart = endMarker + 1;
                     pos = description.find(notOriginMarker, pos + 1);
